@@ -99,6 +99,13 @@ def parseCons : Sexp → Option Cons
   | .list [.atom "advance", n] => n.nat?.map Cons.advance
   | .atom "unpack" => some .unpack
   | .list [.atom "copy", k, first] => do pure (.copyAt (← k.nat?) (first.atom? == some "1"))
+  | .list (.atom "peekops" :: ops) =>
+    (ops.mapM (fun (o : Sexp) => match o.atom? with
+      | some "n" => some PeekOp.next
+      | some "b" => some PeekOp.back
+      | some "p" => some PeekOp.peek
+      | some "q" => some PeekOp.peekBack
+      | _ => none)).map Cons.peekOps
   | _ => none
 
 def errStr : Err → String
